@@ -26,7 +26,7 @@ CLASSES = [(False, False), (False, True), (True, False), (True, True)]   # (pair
 
 
 def _cat():
-    return {label: (ans, times) for label, ans, times in flowgrid.fault_catalogue()}
+    return {label: (ans, times) for label, ans, times in flowgrid.fault_catalogue() + flowgrid.san_catalogue()}
 
 
 def _sc(pos, label, pair, kp, cat=None, **kw):
@@ -81,6 +81,13 @@ def two_fault(rng, g, n):
                 pair, kp = (True, bool((i + j) % 2)) if j < 2 else CLASSES[(i + j) % 4]
                 b = {"pos": ["cert", 0], "fault": l2, "answer": cat[l2][0], "times": cat[l2][1]}
                 out.append(dict(_sc(p1, l1, pair, kp, cat), second=b, family="two-fault"))
+    # the same survivable faults followed by a FAULTLESS download whose certificate lacks a configured name (the CSR's key,
+    # a chosen subjectAltName set: `flowgrid.san_catalogue`), with an installed pair, new key and re-used key
+    for i, (p1, l1) in enumerate(((("finalize", 0), "2xx-no-nonce"), (("order", 1), "err:badNonce"))):
+        for kp in (False, True):
+            l2 = ("cert-san-cn-only", "cert-san-subset")[(i + kp) % 2]
+            b = {"pos": ["cert", 0], "fault": l2, "answer": cat[l2][0], "times": cat[l2][1]}
+            out.append(dict(_sc(p1, l1, True, kp, cat), second=b, family="two-fault"))
     n += len(out)
     while len(out) < n:
         first_soft = bool(soft) and rng.random() < 0.67
@@ -117,6 +124,12 @@ def sequences(quick=True):
     for pos, label, pair in ((("cert", 1), "cert-truncated", False), (("cert", 2), "cert-not-pem", True)):
         sc = _sc(pos, label, pair, True, cat, attempts=3, family="sequence")
         sc["ca_opts"] = {"same_leaf": "leaf", "valid_secs": 86400, "chain_len": [3, 2, 1]}
+        out.append(sc)
+    # the FIRST issuance of the process is served for a subset of the names (no protocol fault at all), the following ones
+    # for all of them: whatever the first attempt does with that certificate, every attempt ends with a matching pair
+    for pair, kp in (CLASSES[2:] if quick else CLASSES):
+        sc = _sc(("cert", 0), "cert-san-subset", pair, kp, cat, attempts=2, family="sequence")
+        sc["ca_opts"] = {"leaf_sans": ["subset", None]}
         out.append(sc)
     # a certificate for another key in the first attempt only: the rule answers the first download
     other = {"status": 200, "ctype": "application/pem-certificate-chain", "body_from": "other-key"}
